@@ -539,6 +539,9 @@ def census(repo, tgs=None, units=None):
             out[rel] = {"properties": props_of[rel], "error": "file not found"}; continue
         try:
             u = Unit(repo, rel, "VlsModel.Census")
+            # (round 9) the census asks "is it inside the subset with the obvious target configuration": the tuple structs of
+            # the file itself are read as the tuple of their components (what a target lists under `tuple_structs`)
+            u.open_tuple_structs = set(u.fi.tuple_structs)
         except (RsError, OSError) as e:
             out[rel] = {"properties": props_of[rel], "error": "cannot be indexed: %s" % e}; continue
         rows = []
